@@ -170,6 +170,8 @@ func scenariosFor(prop string) []scn {
 		both(flowParams{Sources: 1, Records: 2, Batch: 1, Dests: 1, AckMenu: onlyOK, Procs: pp, Apply: []string{"proc+stale"}}, 2, 3)
 		both(flowParams{Sources: 1, Records: 2, Batch: 1, Dests: 1, AckMenu: onlyOK, Procs: pp, Apply: []string{"conn+noauth"}}, 2, 3)
 		both(flowParams{Sources: 1, Records: 2, Batch: 1, Dests: 1, AckMenu: onlyOK, Procs: pp, Apply: []string{"proc", "||conn"}}, 2, 3)
+		// a restart-class apply is draining the pipeline while a second, in-place apply is planned and submitted
+		both(flowParams{Sources: 1, Records: 2, Batch: 1, Dests: 1, AckMenu: onlyOK, Procs: pp, Apply: []string{"conn", "||proc"}}, 2, 3)
 		both(flowParams{Sources: 1, Records: 2, Batch: 1, Dests: 1, AckMenu: onlyOK, Procs: pp, Apply: []string{"conn", "proc"}, Stop: "stopwait"}, 1, 2)
 	case "C06":
 		both(flowParams{Sources: 1, Records: 3, Batch: 1, Dests: 1, AckMenu: onlyOK, Stop: "stopwait"}, 2, 4)
